@@ -368,7 +368,7 @@ var searchRef = map[string]rowSet{
 }
 
 func c04Seg(c *Ctx, prefix string) {
-	r := c.Rule(prefix, "TRACE", "topicSegment/topicShorten split at the first separator; topicShorten yields the end sentinel when no separator is left", 4)
+	r := c.Rule(prefix, "TRACE", "topicSegment/topicShorten split at the first separator; topicShorten yields the end sentinel when no separator is left; add, set, get, remove, match and search all take their level from topicSegment and descend with topicShorten of their own topic (storage and lookup cut a topic into the same levels)", 10)
 	for _, name := range []string{"topic.topicSegment", "topic.topicShorten"} {
 		fi := c.mustFunc(r, name)
 		if fi == nil {
@@ -466,6 +466,102 @@ func c04Seg(c *Ctx, prefix string) {
 		r.Check(name+":separator found", okFound && nFound == 1, fi.Decl.Pos(), len(in.Traces), "with a separator at index i the segment is topic[:i] and the remainder topic[i+1:]")
 		r.Check(name+":no separator", okMissing && nMissing == 1, fi.Decl.Pos(), len(in.Traces), "without a separator the segment is the whole topic and the remainder is the end sentinel")
 	}
+	c04Descent(c, r)
+}
+
+// c04Descent: storage side and lookup side must cut the topic into the same levels. Every walker of the trie takes its
+// level from the verified topicSegment(topic, t.separator) and recurses with the verified topicShorten(topic,
+// t.separator) of its own topic parameter (directly or through a helper that is interpreted in place); no other
+// splitting of the topic happens on the path.
+func c04Descent(c *Ctx, r *Rule) {
+	seg, _ := c.P.Global("topic", "topicSegment").(*types.Func)
+	sho, _ := c.P.Global("topic", "topicShorten").(*types.Func)
+	sepF := c.P.Field("topic", "Tree", "separator")
+	for _, w := range []string{"add", "set", "get", "remove", "match", "search"} {
+		fi := c.mustFunc(r, "topic.(*Tree)."+w)
+		if fi == nil || seg == nil || sho == nil {
+			continue
+		}
+		sig := fi.Obj.Type().(*types.Signature)
+		ti := -1
+		for i := 0; i < sig.Params().Len(); i++ {
+			if b, ok := sig.Params().At(i).Type().(*types.Basic); ok && b.Kind() == types.String {
+				ti = i
+			}
+		}
+		if ti < 0 {
+			r.Undecided(fi.Name+":descent", fi.Decl.Pos(), "no topic parameter")
+			continue
+		}
+		topicP := sig.Params().At(ti)
+		in := c.traces(fi)
+		h := &Interp{P: c.P, Info: fi.Pkg.TypesInfo}
+		ok, why, nrec := true, "", 0
+		var wit *Trace
+		fail := func(t *Trace, msg string) {
+			if ok {
+				ok, why, wit = false, msg, t
+			}
+		}
+		isOwn := func(e *Event, i int) bool {
+			if i < len(e.ArgObjs) && e.ArgObjs[i] == types.Object(topicP) {
+				return true
+			}
+			return i < len(e.Call.Args) && h.objOf(e.Call.Args[i]) == types.Object(topicP)
+		}
+		for _, t := range in.Traces {
+			segSeen, shoSeen := false, false
+			for _, e := range t.Ev {
+				if e.Kind != EvCall {
+					continue
+				}
+				f, _ := e.Callee.(*types.Func)
+				if f == nil {
+					continue
+				}
+				switch {
+				case f == seg || f == sho:
+					if len(e.Call.Args) != 2 || !isOwn(e, 0) {
+						fail(t, FuncName(f)+" is applied to something other than the walker's own topic")
+					} else if o := h.objOf(e.Call.Args[1]); o != types.Object(sepF) && (len(e.ArgObjs) < 2 || e.ArgObjs[1] != types.Object(sepF)) {
+						fail(t, FuncName(f)+" is not called with the tree's separator")
+					}
+					if f == seg {
+						segSeen = true
+					} else {
+						shoSeen = true
+					}
+				case f.Pkg() != nil && f.Pkg().Path() == "strings":
+					for i := range e.Call.Args {
+						if isOwn(e, i) {
+							fail(t, "the topic is split by strings."+f.Name()+" instead of topicSegment/topicShorten: storage and lookup may disagree on the levels")
+						}
+					}
+				case f == fi.Obj:
+					nrec++
+					// match and search also descend without consuming a level or without looking at it ('#' keeps the
+					// topic, '+' ignores the segment): which branch does what is decided by the MATCH/SEARCH tables
+					lookup := w == "match" || w == "search"
+					if ti < len(e.Call.Args) {
+						a := ast.Unparen(e.Call.Args[ti])
+						if isOwn(e, ti) {
+							if !lookup {
+								fail(t, "the walker recurses with its topic unchanged")
+							}
+							continue
+						}
+						if !shoSeen || (!segSeen && !lookup) {
+							fail(t, "a descent without topicSegment and topicShorten of the current topic")
+						}
+						if _, isSlice := a.(*ast.SliceExpr); isSlice {
+							fail(t, "the walker recurses with a slice of the topic instead of topicShorten(topic)")
+						}
+					}
+				}
+			}
+		}
+		r.Check(fi.Name+":descent by topicSegment/topicShorten", ok && nrec > 0, fi.Decl.Pos(), len(in.Traces), why, c.witness(wit)...)
+	}
 }
 
 func c04Dedup(c *Ctx, prefix string) {
@@ -542,6 +638,8 @@ func propC04(c *Ctx) string {
 	c04Seg(c, "C04/SEG")
 	c04Dedup(c, "C04/DEDUP")
 	c04First(c)
+	// a lookup can only return what is still stored: removing one filter must not unlink a node that holds values
+	c05Prune(c, "C04/PRUNE")
 	c.NotDecide("byte-exact comparison of levels (delegated to Go string equality and map lookup)", "that the two tables imply MQTT 3.1.1 §4.7 for all inputs (paper argument in DESIGN.md)",
 		"which value MatchFirst/SearchFirst pick when several match", "behaviour for topic names that contain wildcards (outside the property's quantifier)")
 	c.Assume("node is the trie node reached by consuming the levels before the current one (kept by the SEG rule: every descent pairs children[segment] with shorten(topic))")
@@ -687,6 +785,10 @@ func propC05(c *Ctx) string {
 	c05Snapshot(c)
 	c05Prune(c, "C05/PRUNE")
 	c05AddSet(c)
+	// the queries of the map model are answered by the two walkers
+	c04Seg(c, "C05/SEG")
+	c04Table(c, "C05/MATCH", "topic.(*Tree).match", matchRef, map[string]bool{"segment=+": true, "segment=#": true})
+	c04Table(c, "C05/SEARCH", "topic.(*Tree).search", searchRef, nil)
 	c.NotDecide("equality of every query answer with the map model after arbitrary histories (functional correctness over histories)",
 		"data-race freedom of callers that mutate stored values themselves", "that removeValue finds the value (uses ==)")
 	c.Assume("lock keys are instance-insensitive: no function of package topic touches two trees", "sync.RWMutex is correct")
